@@ -250,7 +250,7 @@ theorem routeTo_links (s1 : Sys F) (sel : Nat) (pkt : Bytes) (seq : Option Nat) 
       obtain ⟨-, g2d, g2b, g2c⟩ := g2
       rw [Nat.zero_add] at g2b g2c g2d
       have hw : wireOf l1.core.connId ((forwardVia s1 sel pkt seq now).2.wire ++
-          (stallProbesGo fa pkt seq now sel (forwardVia s1 sel pkt seq now).1.links 0
+          (stallProbesGo (forwardVia s1 sel pkt seq now).1.failAfter pkt seq now sel (forwardVia s1 sel pkt seq now).1.links 0
             (forwardVia s1 sel pkt seq now).1.failNext).2.1) = b2 := by
         rw [f2, wireOf_append, wireOf_tag_other _ _ _ (ids_ne hnd hlsel hl1 (Ne.symm hi)),
           g3 (by rw [hids2]; exact hnd), List.nil_append]
